@@ -50,6 +50,12 @@ class I(Interp):
         }
 
     def eval(self, e, env):
+        if e.get("k") == "macro" and e.get("name", "").rsplit("::", 1)[-1] == "matches" and e.get("e") is not None:
+            v = self.eval(e["e"], env)
+            if isinstance(v, Term) and v.op == "rec":
+                # the stubbed answer of the recursion is no particular variant: a filter that only acts on a definite answer leaves it as it is
+                # (what such a filter does to definite answers is decided by R14.f, which evaluates the recursion)
+                return False
         if e.get("k") == "index":
             base = canon(e["e"])
             if base == "self.bodies":
@@ -72,6 +78,17 @@ class I(Interp):
     def default_method(self, recv, m, args, e):
         if m == "get_mutability":
             return Term("rec", *args)
+        if isinstance(recv, Obj) and recv.name == "self" and m in self.cfg.get("__helpers", {}):
+            # a helper of the same impl that post-processes the answer (asked with the stubbed recursion's answer) runs from its own source
+            f = self.cfg["__helpers"][m]
+            env2 = {"self": recv}
+            for n_, a_ in zip(f.param_names()[1:], args):
+                env2[n_] = a_
+            from absint import _Return
+            try:
+                return self.eval(f.body, env2)
+            except _Return as r_:
+                return r_.v
         if isinstance(recv, TyModel):
             if m == "is_pointer":
                 return recv.ptr is not None
@@ -159,6 +176,9 @@ def configs_for(name):
 
 def table(ctx):
     fn = ctx.syn.fn("GlobalInferenceCtx::get_mutability", FILE)
+    helpers = {f.qual.rsplit("::", 1)[-1]: f for f in ctx.syn.fns_in(FILE)
+               if f.impl_ty and f.impl_ty.startswith("GlobalInferenceCtx") and f.body is not None and not f.in_test and f.qual.rsplit("::", 1)[-1] != "get_mutability"
+               and f.end - f.ln < 40}
     rows = []
     for v in expr_variants(ctx):
         for cfg in configs_for(v["n"]):
@@ -182,6 +202,7 @@ def table(ctx):
                         tys["array"] = TyModel("array", ptr=(True if c.get("src_ptr") else None))
                         tys["source"] = tys["array"]
                     c["tys"] = tys
+                    c["__helpers"] = helpers
                     c["expr"] = Variant("Expr::" + v["n"], payload_for(v, c))
                     it = I(c)
                     env = {"self": Obj("self", bodies=Term("bodies"), tys=Term("tys"), interner=Term("interner"), world_index=Term("world_index"),
@@ -438,14 +459,23 @@ def r14e(ctx, run):
     by the next `.field` (auto-deref): writing `h.point.x` writes through `point`, so it needs `point : ^mut _` - whatever `h` is - and a path of
     by-value fields is as mutable as its root.  (The decision table of R14.b looks at one step; the flag it passes down is only right if every level
     asks again.)"""
+    from absint import Obj, Term, Variant, Panic, CannotEstablish, _Return
+    V = Variant
+    fn, TyM, evaluate = gm_machinery(ctx)
+    return _r14e_body(ctx, run, fn, TyM, evaluate)
+
+
+def gm_machinery(ctx):
+    """get_mutability evaluated with its own recursion on model bodies: (fn, TyM, evaluate(bodies, tys, locals, params, start) -> name of the answer)"""
     from symint import SymInterp
     from absint import Obj, Term, Variant, Panic, CannotEstablish, _Return
     V = Variant
     fn = ctx.syn.fn("GlobalInferenceCtx::get_mutability", "hir_ty/src/globals.rs")
+    helpers = {f.qual.rsplit("::", 1)[-1]: f for f in ctx.syn.fns_in("hir_ty/src/globals.rs") if f.impl_ty and f.impl_ty.startswith("GlobalInferenceCtx") and f.body is not None and not f.in_test}
 
     class TyM:
-        def __init__(self, name, ptr=None, file=False):
-            self.name, self.ptr, self.file = name, ptr, file
+        def __init__(self, name, ptr=None, file=False, sub=None):
+            self.name, self.ptr, self.file, self.sub = name, ptr, file, sub
 
     def evaluate(bodies, tys, locals_, params, start):
         class RI(SymInterp):
@@ -458,9 +488,9 @@ def r14e(ctx, run):
                             return locals_[key]
                         return bodies.get(key, V("Expr::Missing"))
                     if base == "self.tys[self.loc]":
-                        return tys[self.eval(e["i"], env)]
+                        return tys.get(self.eval(e["i"], env)) or TyM("other")
                     if base == "self.param_tys":
-                        return Obj("ParamTy", ty=params[self.eval(e["i"], env)])
+                        return Obj("ParamTy", ty=params.get(self.eval(e["i"], env)) or TyM("other"))
                 if e.get("k") in ("ref",) or (e.get("k") == "un" and e.get("op") in ("*", "&")):
                     return self.eval(e["e"], env)
                 if e.get("k") == "cast":
@@ -470,11 +500,14 @@ def r14e(ctx, run):
             def default_method(self, recv, m, args, e):
                 if isinstance(recv, Obj) and recv.name == "self" and m == "get_mutability":
                     return self.inline(fn, args, recv=recv)
+                if isinstance(recv, Obj) and recv.name == "self" and m in helpers and m not in ("get_mutability",):
+                    # small helpers of the same impl (asked by get_mutability) run from their own source
+                    return self.inline(helpers[m], args, recv=recv)
                 if isinstance(recv, TyM):
                     if m == "is_pointer":
                         return recv.ptr is not None
                     if m == "as_pointer":
-                        return None if recv.ptr is None else (recv.ptr == "mut", Term("sub"))
+                        return None if recv.ptr is None else (recv.ptr == "mut", recv.sub if recv.sub is not None else TyM("pointee"))
                     if m in ("as_ref", "absolute_ty"):
                         return V("Ty::File", {"0": Term("file")}) if recv.file else V("Ty::Other")
                 if m == "map" and len(args) == 1 and (recv is None or isinstance(recv, tuple)):
@@ -491,6 +524,12 @@ def r14e(ctx, run):
         except _Return as rr:
             r = rr.v
         return r.last if isinstance(r, Variant) else repr(r)
+    return fn, TyM, evaluate
+
+
+def _r14e_body(ctx, run, fn, TyM, evaluate):
+    from absint import Obj, Term, Variant, Panic, CannotEstablish, _Return
+    V = Variant
     lit = V("Expr::StructLiteral", {"ty": None, "members": []})
     n = 0
     for root_desc, root_mut in (("a `:=` local", True), ("a `::` local", False)):
@@ -528,11 +567,70 @@ def r14e(ctx, run):
         raise LookupError("field paths evaluated: %d" % n)
 
 
+def r14f(ctx, run):
+    """the type has the last word: whatever an expression is made of, if its TYPE is `^T` nothing is changed through it - an explicit `e^ = ..`, and the
+    automatic dereference of `e.field = ..` / `e[i] = ..` (which goes through every pointer level), are writable only through `^mut`.  get_mutability
+    decides by walking initialisers; evaluated with its own recursion for pointers that come out of an array element, a by-value field, an
+    uninitialised local, a local whose initialiser is a `^mut` reference but whose annotation is `^T`, and a `^mut ^S` double pointer."""
+    from absint import Obj, Term, Variant, Panic, CannotEstablish
+    V = Variant
+    fn, TyM, evaluate = gm_machinery(ctx)
+    alit, slit = V("Expr::ArrayLiteral", {"ty": None, "items": []}), V("Expr::StructLiteral", {"ty": None, "members": []})
+    l1, l2 = Term("l1"), Term("l2")
+    e = {k: Term("e_" + k) for k in ("root", "mid", "top", "lit", "ref", "y")}
+
+    def name(n_):
+        return Obj("NameWithRange", name=Term(n_), range=Term("r"))
+    P_const, P_mut = TyM("^T", ptr="const"), TyM("^mut T", ptr="mut")
+    PP = TyM("^mut ^S", ptr="mut", sub=TyM("^S", ptr="const", sub=TyM("S")))
+    PPm = TyM("^mut ^mut S", ptr="mut", sub=TyM("^mut S", ptr="mut", sub=TyM("S")))
+    cases = []
+    # (description, bodies, tys, locals, params, start, must be mutable?)
+    for pty, want in ((P_const, False), (P_mut, True)):
+        t = pty.name
+        cases += [
+            ("`arr[0]^ = ..` with arr := .[..] of %s" % t, {e["root"]: V("Expr::Local", {"0": l1}), e["mid"]: V("Expr::Index", {"source": e["root"], "index": Term("i")}),
+                                                             e["top"]: V("Expr::Deref", {"pointer": e["mid"]}), e["lit"]: alit},
+             {e["root"]: TyM("[2]" + t), e["mid"]: pty, e["top"]: TyM("T")}, {l1: Obj("LocalDef", mutable=True, value=e["lit"], range=Term("lr"))}, e["top"], want),
+            ("`s.p^ = ..` with s := S.{..}, p : %s" % t, {e["root"]: V("Expr::Local", {"0": l1}), e["mid"]: V("Expr::Member", {"previous": e["root"], "name": name("p")}),
+                                                           e["top"]: V("Expr::Deref", {"pointer": e["mid"]}), e["lit"]: slit},
+             {e["root"]: TyM("S"), e["mid"]: pty, e["top"]: TyM("T")}, {l1: Obj("LocalDef", mutable=True, value=e["lit"], range=Term("lr"))}, e["top"], want),
+            ("`o^ = ..` with `o : %s;` (no initialiser)" % t, {e["root"]: V("Expr::Local", {"0": l1}), e["top"]: V("Expr::Deref", {"pointer": e["root"]})},
+             {e["root"]: pty, e["top"]: TyM("T")}, {l1: Obj("LocalDef", mutable=True, value=None, range=Term("lr"))}, e["top"], want),
+            ("`p^ = ..` with `p : %s = ^mut y`" % t, {e["root"]: V("Expr::Local", {"0": l1}), e["top"]: V("Expr::Deref", {"pointer": e["root"]}),
+                                                       e["ref"]: V("Expr::Ref", {"mutable": True, "expr": e["y"]}), e["y"]: V("Expr::Local", {"0": l2})},
+             {e["root"]: pty, e["top"]: TyM("T"), e["ref"]: P_mut, e["y"]: TyM("T")},
+             {l1: Obj("LocalDef", mutable=True, value=e["ref"], range=Term("lr")), l2: Obj("LocalDef", mutable=True, value=Term("v"), range=Term("lr"))}, e["top"], want),
+        ]
+    for ppty, want in ((PP, False), (PPm, True)):
+        cases.append(("`pp.x = ..` with the parameter pp : %s (auto-deref through both levels)" % ppty.name,
+                      {e["root"]: V("Expr::Param", {"idx": 0, "range": Term("pr")}), e["top"]: V("Expr::Member", {"previous": e["root"], "name": name("x")})},
+                      {e["root"]: ppty, e["top"]: TyM("i32")}, {}, e["top"], want))
+    cases.append(("`pp^ = ..` with the parameter pp : ^mut ^S (one level: the inner pointer itself is replaced)",
+                  {e["root"]: V("Expr::Param", {"idx": 0, "range": Term("pr")}), e["top"]: V("Expr::Deref", {"pointer": e["root"]})},
+                  {e["root"]: PP, e["top"]: PP.sub}, {}, e["top"], True))
+    n = 0
+    for desc, bodies, tys, locals_, start, want in cases:
+        params = {0: tys[e["root"]]}
+        try:
+            got = evaluate(bodies, tys, locals_, params, start)
+        except (Panic, CannotEstablish) as c:
+            run.finding(fn.qual, "type-last-word:" + desc, fn.file, fn.ln, "cannot establish the mutability of %s: %s" % (desc, getattr(c, "what", c)))
+            continue
+        n += 1
+        run.check((got == "Mutable") == want, fn.site(), "%s -> %s" % (desc, got), fn.qual, "type-last-word:" + desc, fn.file, fn.ln,
+                  "%s is answered %s; it must be %s: only a `^mut` pointer type allows a write through it, however the pointer value was obtained (an element of a mutable "
+                  "array, a field, an initialiser that happens to be a `^mut` reference)" % (desc, got, "Mutable" if want else "an immutability diagnostic"))
+    if n < 10:
+        raise LookupError("pointer-typed places evaluated: %d" % n)
+
+
 def rules(ctx):
     return [
         Rule("R14.a", "assignment and `^mut` reference consult get_mutability with the right arguments and reject on any diagnostic", 7, r14a),
         Rule("R14.b", "immutable roots: `::` local, parameter, global, file member (decision table of get_mutability)", 40, r14b),
         Rule("R14.e", "field paths through pointer fields: get_mutability evaluated with its own recursion (a middle pointer field decides by its own type)", 10, r14e),
+        Rule("R14.f", "the type has the last word: a place reached through an expression of type `^T` is never writable, whatever the expression is made of", 10, r14f),
         Rule("R14.d", "`^mut (x)` points at `x`: forms get_mutability looks through are looked through by the code generator's Ref arm", 3, r14d),
         Rule("R14.c", "Mutable through a dereference only behind a `^mut` pointer type; deref/index/paren recursion flags", 20, r14c),
     ]
